@@ -29,7 +29,8 @@ PROBES = ["immediate_clear", "timed_clear", "clear_by_event", "clear_by_nested_c
           "relay_chain3", "relay_empty_kwargs", "bool_false_midway", "bool_no_false",
           "game_queue_event_held", "game_ball_ending_held", "game_mode_starting_held", "game_mode_stopping_held",
           "game_holds_released_together", "game_ball_ended", "game_ended", "game_mode_stopped_by_ball_end",
-          "queue_handler_returns_false", "queue_handler_returns_value", "relay_handler_returns_false",
+          "mode_stopping_has_handlers", "mode_stopping_waiter", "mode_restart_in_stop_instant",
+          "mode_start_maybe_deferred", "queue_handler_returns_false", "queue_handler_returns_value", "relay_handler_returns_false",
           "relative_priority_handler", "coro_ends_cancelled", "coro_task_cancelled",
           "coro_awaited_future_cancelled", "rewait_same_queue", "forwarded_queue_nested", "shared_queue_second_wait", "relay_reg_collides_posted",
           "relay_ret_collides_reg", "handler_removed_in_flight", "all_handlers_removed_after_post", "late_after_stall"]
@@ -266,6 +267,25 @@ def plan(ch, tier):
             n = ch.weighted("nh_ms", [(0, 2), (1, 3), (2, 1)])
             for _ in range(n):
                 handlers.append(_gen_queue_handler(ch, nh(), ev, feat, only_clear=True))
+        for ev in H.MSTOP:
+            n = ch.weighted("nh_mstop", [(0, 3), (1, 3), (2, 1)])
+            for _ in range(n):
+                handlers.append(_gen_queue_handler(ch, nh(), ev, feat, only_clear=True))
+    together = []
+    if feat["modes"] and ch.flag("b_together", 0.35):
+        # A hold on mode_<m>_stopping and a hold in front of Mode.start on the mode's (queue) start event which are
+        # released by the same event: the stop of the previous run completes and the dispatcher of the next start
+        # event reaches Mode.start in the same instant (restart while the stop is still cleaning up).
+        pool = ch.pick("b_pool", CEV)
+        d = ch.pick("b_d_tog", [0.1, 0.25, 0.5, 0.5])
+        for m, ev in (("mq", "q1"), ("mqc", "q2")):
+            if not ch.flag("b_tog_m", 0.7):
+                continue
+            together.append(ev)
+            handlers.append({"hid": nh(), "ev": "mode_%s_stopping" % m, "acts": [], "kind": "wait",
+                             "clear": ["event", pool, d], "prio": ch.pick("prio", PRIOS)})
+            handlers.append({"hid": nh(), "ev": ev, "acts": [], "kind": "wait", "clear": ["event", pool, d],
+                             "prio": 300 + ch.pick("prio_off", [0, 0, 0, 1, 3, 5, 6])})
     if feat["relay"]:
         for ev in REV:
             for _ in range(1 + ch.choice("nh_r", 5)):
@@ -348,6 +368,14 @@ def plan(ch, tier):
             if ch.flag("re_add", 0.6):
                 ops.append({"op": "add_all", "ev": op["ev"], "via": "direct",
                             "when": ["rel", ch.pick("dt", [0.0, 0.0, 0.001, 0.01, 0.05, 0.1, 0.1, 0.3, 0.6])]})
+    for ev in together:
+        # the start event is posted at least twice, the second time often right at/after the scheduled stop
+        for _ in range(2 + ch.choice("b_nposts", 2)):
+            op = {"op": "post", "ev": ev, "how": _how_for(ch, ev), "kw": _kw(ch)}
+            w = ch.weighted("b_when", [("deadline", 5), ("rel", 3)])
+            op["when"] = ["deadline", ch.choice("dl_idx", 4), ch.pick("b_dl_delta", [0.001, 0.0, 0.01, 0.05])] \
+                if w == "deadline" else ["rel", ch.pick("dt", [0.0, 0.0, 0.001, 0.01, 0.05, 0.1, 0.1, 0.3, 0.6])]
+            ops.insert(ch.choice("b_pos", len(ops) + 1), op)
     drv = {"mode_stop": {m: [ch.pick("ms_d", DELAYS + [1.0]) for _ in range(3)] for m in ("mq", "mqc", "mp", "mr")},
            "ack": [ch.pick("ack_d", DELAYS) for _ in range(4)],
            "mr_boot": feat["mr"] and ch.flag("mr_boot", 0.5)}
